@@ -7,7 +7,7 @@
    earlier segment touches it.  [wire_txs bound id cmds evs]: the events added to the wire log are
    exactly the commands [cmds], in order, the k-th one serialized with request id (id + k) mod
    2^16, each answered by acknowledges of at most [bound cmd] bytes. *)
-From Cam Require Import Outcome Bytes Chunks Cmd Ack CmdLayout GenCPLayout Control P_C09 P_C08 P_C06.
+From Cam Require Import Outcome Bytes Chunks Cmd Ack CmdLayout GenCPLayout Control P_C09 P_C08 P_C06 ManifestSpec P_C14b.
 
 (* a read of n bytes at a returns exactly device memory [a, a+n); memory is not modified *)
 Theorem C06_read_exact : forall c w a n pre b m post,
@@ -38,6 +38,22 @@ Theorem C06_write_exact : forall c w a data pre b m post,
                 wire_txs write_bound (c_next c) (block_cmds (S (length data)) a data (c_max_cmd c - 20)) evs.
 Proof. exact ctl_write_exact. Qed.
 Print Assumptions C06_write_exact.
+
+(* The same two statements over WHOLE device memories: any number of segments inside the 64 bit
+   address space separated by unmapped bytes ([good_conf]: open handle, 12 < max_ack < 2^32,
+   max_cmd >= 24, request id in u16, retry >= 1, conforming plans).  [mem_read segs a n] is the device
+   memory [a, a+n) (None when some byte is unmapped or the range leaves the address space). *)
+Theorem C06_read_memory : forall c w a n d, good_conf (c, w) -> mem_read (w_segs w) a n = Some d ->
+  exists c' w', ctl_read a n (c, w) = (Ok d, (c', w')) /\ w_segs w' = w_segs w /\ good_conf (c', w').
+Proof. exact read_memory. Qed.
+Print Assumptions C06_read_memory.
+
+Theorem C06_write_memory : forall c w a data old, good_conf (c, w) -> 0 < zlen data -> bytes_ok data ->
+  mem_read (w_segs w) a (zlen data) = Some old ->
+  exists c' w', ctl_write a data (c, w) = (Ok tt, (c', w')) /\ seg_write (w_segs w) a data = Some (w_segs w') /\
+                mem_read (w_segs w') a (zlen data) = Some data.
+Proof. exact write_memory. Qed.
+Print Assumptions C06_write_memory.
 
 (* one transaction: any number of pending acknowledges below the retry limit is awaited *)
 Theorem C06_pending_awaited : forall mss fuel retry ek c w a,
